@@ -30,9 +30,15 @@ pub enum Fault {
     InvokeUnsupportedType,
     InvokeInvalidContent,
     InvokeGarbageContent,
+    /// invoke arguments whose evaluation fails (the invoking state stays active afterwards)
+    InvokeBadNamelist,
+    InvokeBadSrcExpr,
+    InvokeBadParamExpr,
+    InvokeBadTypeExpr,
+    InvokeBadContentExpr,
 }
 
-pub const FAULTS: [Fault; 14] = [
+pub const FAULTS: [Fault; 19] = [
     Fault::UnknownSession,
     Fault::MalformedSessionTarget,
     Fault::UnknownInvokeTarget,
@@ -47,6 +53,11 @@ pub const FAULTS: [Fault; 14] = [
     Fault::InvokeUnsupportedType,
     Fault::InvokeInvalidContent,
     Fault::InvokeGarbageContent,
+    Fault::InvokeBadNamelist,
+    Fault::InvokeBadSrcExpr,
+    Fault::InvokeBadParamExpr,
+    Fault::InvokeBadTypeExpr,
+    Fault::InvokeBadContentExpr,
 ];
 
 impl Fault {
@@ -62,7 +73,10 @@ impl Fault {
         }
     }
     fn is_invoke(&self) -> bool {
-        matches!(self, Fault::InvokeMissingFile | Fault::InvokeUnsupportedType | Fault::InvokeInvalidContent | Fault::InvokeGarbageContent)
+        matches!(
+            self,
+            Fault::InvokeMissingFile | Fault::InvokeUnsupportedType | Fault::InvokeInvalidContent | Fault::InvokeGarbageContent | Fault::InvokeBadNamelist | Fault::InvokeBadSrcExpr | Fault::InvokeBadParamExpr | Fault::InvokeBadTypeExpr | Fault::InvokeBadContentExpr
+        )
     }
     fn send(&self) -> SendSpec {
         let mut s = SendSpec { event: Some("out".into()), ..Default::default() };
@@ -94,6 +108,20 @@ impl Fault {
             }
             Fault::InvokeInvalidContent => i.content = Some(ContentSpec::Text("<notscxml><state id=\"x\"><unknown/></state></notscxml>".into())),
             Fault::InvokeGarbageContent => i.content = Some(ContentSpec::Text("this is no xml at all".into())),
+            Fault::InvokeBadNamelist => {
+                i.namelist = vec!["no_such_location_anywhere".into()];
+                i.content = Some(ContentSpec::Text("<scxml xmlns=\"http://www.w3.org/2005/07/scxml\" version=\"1.0\"><final id=\"f\"/></scxml>".into()));
+            }
+            Fault::InvokeBadSrcExpr => i.srcexpr = Some("no_such_variable_anywhere.x".into()),
+            Fault::InvokeBadParamExpr => {
+                i.params = vec![ParamSpec { name: "p".into(), expr: Some("no_such_variable_anywhere.x".into()), location: None }];
+                i.content = Some(ContentSpec::Text("<scxml xmlns=\"http://www.w3.org/2005/07/scxml\" version=\"1.0\"><final id=\"f\"/></scxml>".into()));
+            }
+            Fault::InvokeBadTypeExpr => {
+                i.typeexpr = Some("no_such_variable_anywhere.x".into());
+                i.content = Some(ContentSpec::Text("<scxml xmlns=\"http://www.w3.org/2005/07/scxml\" version=\"1.0\"><final id=\"f\"/></scxml>".into()));
+            }
+            Fault::InvokeBadContentExpr => i.content = Some(ContentSpec::Expr("no_such_variable_anywhere.x".into())),
             _ => {}
         }
         i
@@ -289,7 +317,7 @@ impl Check for C12 {
     }
     fn rule(&self) -> String {
         "odd profile: structurally conformant documents whose content is hostile: the expression pool of C11 (grammar-derived, mutated, known nasty sources) in conds, <data>, assign, log, script, if, foreach, send eventexpr/targetexpr/delayexpr/namelist/param, cancel sendidexpr; \
-         plus 0-3 platform faults per case (send to an unknown session, malformed session target, unknown invoke id, #_parent without parent, unsupported type / typeexpr, negative / malformed delay, delay with #_internal, unknown target scheme, invoke of a missing file / unsupported type / invalid inline content / garbage content), each triggered by its own event; a ping region answers __ping. \
+         plus 0-3 platform faults per case (send to an unknown session, malformed session target, unknown invoke id, #_parent without parent, unsupported type / typeexpr, negative / malformed delay, delay with #_internal, unknown target scheme, invoke of a missing file / unsupported type / invalid inline content / garbage content / with a failing namelist, srcexpr, typeexpr, param expr or content expr while the invoking state stays active), each triggered by its own event; a ping region answers __ping. \
          Oracle: the session thread does not panic, answers the final __ping, ends on cancel within the time limit, and each send fault's macrostep dequeues the error event the Recommendation assigns (error.execution / error.communication; extra error events tolerated). \
          Non-trivial = >= 1 platform fault or >= 2 hostile expressions in the document; distinct = hash of document + events."
             .into()
